@@ -160,7 +160,7 @@ def _pick_amount(rng, b, rc, u=None):
     inv = rng.choice(rows)
     cap = int((inv[2] - inv[3]) * (inv[7] * 2.0 ** inv[8]))
     free = cap - b.st.used(inv[0], rc)
-    if rng.random() < 0.15:
+    if rng.random() < 0.07:
         return max(1, free + rng.choice([0, 0, -1, 1, -2]))
     step, lo = inv[6], inv[4]
     valid = [x for x in range(step, max(step, min(free, 12)) + 1, step) if x >= lo]
@@ -246,9 +246,23 @@ def gen_cand_query(rng, b):
     # all groups look at one tree most of the time, so that merging them can succeed
     tree = b.st.rps[rng.choice(b.providers)][4] if b.providers and rng.random() < 0.8 else None
     damp = 1.0 / len(suffixes)
+    # sharing scenario: the unsuffixed group takes one class from a sharing provider and the rest from a
+    # tree associated with it through an aggregate
+    sharers = [u for u in b.providers if MISC in _traits_of(b, u) and u in b.st.invs and _aggs_of(b, u)]
+    scenario = None
+    if sharers and rng.random() < 0.3:
+        sp = rng.choice(sharers)
+        mates = sorted(set(b.st.rps[w][4] for w in b.providers
+                           if w != sp and set(_aggs_of(b, w)) & set(_aggs_of(b, sp))))
+        if mates:
+            tree = rng.choice(mates)
+            scenario = sp
     for s in suffixes:
         k = rng.choice([1, 1, 2, 2, 3]) if s == 0 else rng.choice([1, 1, 1, 2])
         picked = _pick_classes(rng, b, s, k, tree)
+        if s == 0 and scenario is not None:
+            rc = rng.choice(sorted(b.st.invs[scenario]))
+            picked = [(rc, scenario)] + [(c, w) for c, w in picked if c != rc][:2]
         resources = [(rc, _pick_amount(rng, b, rc, w)) for rc, w in picked]
         wit = sorted(set(w for _rc, w in picked if w is not None))
         if rng.random() < 0.015:
@@ -256,11 +270,26 @@ def gen_cand_query(rng, b):
         required, forbidden = _gen_traits(rng, v, 0.25 * damp, 0.2 * damp, b, wit)
         member_of, forbidden_aggs = _gen_aggs(rng, v, 21, 24, 0.22 * damp, b,
                                               wit + [b.st.rps[w][4] for w in wit])
+        if s == 0 and scenario is not None and v >= 21 and rng.random() < 0.4:
+            # aggregates of the anchor tree (its root spans the tree), not necessarily of the sharing provider
+            member_of, forbidden_aggs = _gen_aggs(rng, v, 21, 24, 1.0, b, [tree])
         in_tree = None
-        if v >= 31 and rng.random() < 0.12 * damp:
+        if v >= 31 and rng.random() < (0.25 if s == 0 and scenario is not None else 0.12 * damp):
             in_tree = rng.choice(wit or b.providers) if rng.random() < 0.93 else 9
-        if s != 0 and v >= 36 and rng.random() < 0.12:
+        if s != 0 and v >= 36 and rng.random() < 0.15:
             resources = []                       # resourceless group: needs some other key + same_subtree
+            kind = rng.choice(['keep', 'required', 'forbidden', 'member_of', 'in_tree', 'forbidden_aggs'])
+            w1 = wit or b.providers
+            if kind == 'required':
+                required, forbidden, member_of, forbidden_aggs, in_tree = [[rng.choice(_traits_of(b, w1[0]) or [T_AVX])]], [], [], [], None
+            elif kind == 'forbidden':
+                required, forbidden, member_of, forbidden_aggs, in_tree = [], [rng.choice([T_AVX, T_SSD, T_CUSTOM])], [], [], None
+            elif kind == 'member_of':
+                required, forbidden, member_of, forbidden_aggs, in_tree = [], [], [[rng.choice(_aggs_of(b, w1[0]) or AGGS)]], [], None
+            elif kind == 'in_tree':
+                required, forbidden, member_of, forbidden_aggs, in_tree = [], [], [], [], rng.choice(w1)
+            elif kind == 'forbidden_aggs':
+                required, forbidden, member_of, forbidden_aggs, in_tree = [], [], [], [rng.choice(AGGS)], None
             if not (required or forbidden or member_of or forbidden_aggs or in_tree is not None):
                 required = [[rng.choice([T_AVX, T_SSD, T_CUSTOM])]]
         groups.append({'suffix': s, 'resources': resources, 'required': required, 'forbidden': forbidden,
@@ -270,7 +299,7 @@ def gen_cand_query(rng, b):
     policy = 'absent'
     if v >= 25:
         if n_suff > 1:
-            policy = rng.choice(['none', 'none', 'none', 'none', 'isolate', 'isolate', 'isolate', 'absent'])
+            policy = rng.choice(['none'] * 9 + ['isolate'] * 6 + ['absent'])
         else:
             policy = rng.choice(['absent', 'absent', 'none', 'isolate'])
     root_required, root_forbidden = [], []
@@ -482,7 +511,9 @@ def ask(app, b, q):
 
 
 # ------------------------------------------------------------------ (v) driver
-CODES = {0: 'agree', 1: 'DISAGREE', 2: 'order-dependent (anchor de-duplication)',
+CODES = {0: 'agree', 1: 'DISAGREE',
+         2: 'order-dependent (anchor de-duplication), observed = all-anchors result',
+         4: 'order-dependent (anchor de-duplication), observed LOST candidates (subset of all-anchors result)',
          3: 'order-dependent (shared resource request mutated)', 9: 'STATE DUMP DIFFERS'}
 
 
@@ -502,7 +533,9 @@ def write_cases(path, states):
             items = ['(if dump_eqb (dump d%d) %s then 0 else 9)' % (k, ops.dump_coq(b.dump))]
             for q, obs in cases:
                 if q['kind'] == 'cand':
-                    items.append('cand_check (candidates %d %s d%d) %s' % (q['v'], query_coq(q, b), k, observed_coq(q, obs)))
+                    qc = query_coq(q, b)
+                    items.append('cand_check (candidates %d %s d%d) (candidates_all_anchors %d %s d%d) %s' % (
+                        q['v'], qc, k, q['v'], qc, k, observed_coq(q, obs)))
                 else:
                     items.append('list_check (list_rps_result %d %s d%d) %s' % (q['v'], query_coq(q, b), k,
                                                                              observed_coq(q, obs)))
